@@ -170,6 +170,11 @@ class WebSession(object):
                 request = self._original_request.copy()
                 request.url = url
                 self._strip_copied_fields(request)
+
+                if request.body:
+                    # The original has been sent: send the copy from
+                    # its start.
+                    request.body.seek(0)
             else:
                 request = self._request_factory(url)
 
